@@ -290,8 +290,10 @@ def parse_model_auto(line):
     tried = [unhx(w) for w in ws[-1][len("tried="):].split(",") if w]
     if ws[0] == "ok":
         return ("ok", unhx(ws[1])), tried
-    if ws[0] == "err":
-        return ("err", ws[1], unhx(ws[2])), tried
+    if ws[0] == "err" and len(ws) >= 2:
+        # the message field is absent when the model's message is empty
+        msg = unhx(ws[2]) if len(ws) > 3 and ws[2][:1] == "x" else ""
+        return ("err", ws[1], msg), tried
     return ("bad", line), tried
 
 
